@@ -38,8 +38,8 @@ type Case struct {
 // Classes lists every damage class this program can apply (printed by kind "classes").
 var Classes = []string{
 	"prefix-oversized", "datasize-oversized", "datasize-negative", "datasize-missing",
-	"rawsize-too-small", "rawsize-too-large", "rawsize-negative",
-	"zlib-corrupt", "zlib-truncated", "zlib-badheader", "encoding-lzma", "encoding-none",
+	"rawsize-too-small", "rawsize-too-large", "rawsize-negative", "rawsize-zero", "rawsize-group-boundary",
+	"zlib-corrupt", "zlib-truncated", "zlib-badheader", "zlib-bad-checksum", "encoding-lzma", "encoding-none",
 	"blocktype-unknown", "blocktype-header-again",
 	"dense-no-ids", "dense-no-lats", "dense-no-lons", "dense-short-lats", "dense-short-lons",
 	"dense-usersid-oor", "dense-keyvals-oor", "dense-keyvals-odd", "dense-short-versions", "dense-short-usersids",
@@ -96,6 +96,22 @@ func damage(b *pbfw.Block, class string) bool {
 	case "rawsize-negative":
 		b.Zlib = true
 		b.Damage.RawSizeOverride = pbfw.I32(-3)
+	case "rawsize-zero":
+		b.Zlib = true
+		b.Damage.RawSizeOverride = pbfw.I32(0)
+	case "rawsize-group-boundary":
+		// declared size = the message up to the end of its first primitive group: what is inflated up to there is
+		// itself a well-formed PrimitiveBlock, only the declared size tells the reader that the blob is damaged
+		b.Zlib = true
+		short := *b
+		short.Groups = b.Groups[:1]
+		b.Damage.RawSizeOverride = pbfw.I32(int32(len(short.PrimitiveBlockBytes())))
+	case "rawsize-missing":
+		b.Zlib = true
+		b.Damage.OmitRawSize = true
+	case "zlib-bad-checksum":
+		b.Zlib = true
+		b.Damage.CorruptZlib = 4
 	case "zlib-corrupt":
 		b.Zlib = true
 		b.Damage.CorruptZlib = 1
